@@ -7,7 +7,8 @@
 (* applies to its connections, one TCP connection as two word streams      *)
 (* (client->server, server->client) and the session of a conformant client *)
 (* (NULL, MNT "/", GETATTR of the mounted handle; every call record-marked *)
-(* in one or two fragments, any xid, AUTH_NONE or AUTH_SYS).               *)
+(* in one or two fragments, any xid, AUTH_NONE or AUTH_SYS; what it writes  *)
+(* reaches the server in TCP segments of any size).                         *)
 (*                                                                         *)
 (* Impl level: one action per pass of server.go handleConnectionLoop       *)
 (*   ServeRM  = recordMarkingConnIO.ReadCall + HandleCall + WriteReply      *)
@@ -21,31 +22,34 @@ CONSTANTS Paths,      \* subset of AllPaths explored
           Xids,       \* xids the client may use (0 is interesting: a raw decoder then accepts the shifted header)
           Frags,      \* subset of {1, 2}: fragments per call record
           Auths,      \* subset of {"NONE", "SYS"}
-          FixExport   \* TRUE: Export starts its Server with UseRecordMarking (repair of F20)
+          FixExport,  \* TRUE: Export starts its Server with UseRecordMarking (repair of F20)
+          FullRead,   \* TRUE: a fragment body is read with io.ReadFull (the code); FALSE: with one Read (a defect class)
+          SegSizes    \* sizes (in words) of the partial TCP segments explored, e.g. {1, 3}; a whole write is always possible
 
 VARIABLES path,     \* start-up path in use
           framing,  \* "none" (not started) | "rm" | "raw"
           conn,     \* "none" | "open" | "closed" (closed or reset by the server)
-          c2s, s2c, \* word streams
+          wire,     \* words the client has written that TCP has not delivered to the server yet
+          c2s, s2c, \* word streams (c2s: delivered to the server, not yet consumed)
           step,     \* client: 1 = NULL, 2 = MNT, 3 = GETATTR, 4 = session complete
           await,    \* client has a call outstanding
           xid,      \* xid of the outstanding call
           fh,       \* handle the client obtained from MNT (<<hi, lo>>) or <<>>
           failed    \* client gave up: connection lost or no valid reply
-vars == <<path, framing, conn, c2s, s2c, step, await, xid, fh, failed>>
+vars == <<path, framing, conn, wire, c2s, s2c, step, await, xid, fh, failed>>
 
 Init == /\ path \in Paths
-        /\ framing = "none" /\ conn = "none" /\ c2s = <<>> /\ s2c = <<>>
+        /\ framing = "none" /\ conn = "none" /\ wire = <<>> /\ c2s = <<>> /\ s2c = <<>>
         /\ step = 1 /\ await = FALSE /\ xid = 0 /\ fh = <<>> /\ failed = FALSE
 
 \* Export / Listen / StartWithPortmapper return: the accept loop is running
 Start == /\ framing = "none"
          /\ framing' = FramingOf(path, FixExport)
-         /\ UNCHANGED <<path, conn, c2s, s2c, step, await, xid, fh, failed>>
+         /\ UNCHANGED <<path, conn, wire, c2s, s2c, step, await, xid, fh, failed>>
 
 Connect == /\ framing # "none" /\ conn = "none"
            /\ conn' = "open"
-           /\ UNCHANGED <<path, framing, c2s, s2c, step, await, xid, fh, failed>>
+           /\ UNCHANGED <<path, framing, wire, c2s, s2c, step, await, xid, fh, failed>>
 
 CallOf(k, x, a) == CASE k = 1 -> NullCall(x, a)
                      [] k = 2 -> MntCall(x, a)
@@ -53,9 +57,21 @@ CallOf(k, x, a) == CASE k = 1 -> NullCall(x, a)
 
 ClientSend(x, a, nf) ==
   /\ conn = "open" /\ ~await /\ ~failed /\ step \in 1..3
-  /\ c2s' = c2s \o Frame(Enc(CallOf(step, x, a)), nf)
+  /\ wire' = wire \o Frame(Enc(CallOf(step, x, a)), nf)
   /\ await' = TRUE /\ xid' = x
-  /\ UNCHANGED <<path, framing, conn, s2c, step, fh, failed>>
+  /\ UNCHANGED <<path, framing, conn, c2s, s2c, step, fh, failed>>
+
+\* TCP is a byte stream: what the client wrote reaches the server in segments of any size
+\* (one write may be split, the fragment header may arrive alone, a fragment may arrive in pieces)
+Deliver(k) ==
+  /\ conn = "open" /\ k \in SegSizes /\ k <= Len(wire)
+  /\ c2s' = c2s \o SubSeq(wire, 1, k)
+  /\ wire' = SubSeq(wire, k + 1, Len(wire))
+  /\ UNCHANGED <<path, framing, conn, s2c, step, await, xid, fh, failed>>
+DeliverAll ==
+  /\ conn = "open" /\ wire # <<>>
+  /\ c2s' = c2s \o wire /\ wire' = <<>>
+  /\ UNCHANGED <<path, framing, conn, s2c, step, await, xid, fh, failed>>
 
 \* one pass of handleConnectionLoop with recordMarkingConnIO
 ServeRM ==
@@ -68,7 +84,15 @@ ServeRM ==
              ELSE /\ s2c' = s2c \o Frame(Dispatch(d, d.rest).reply, 1)
                   /\ c2s' = r.rest
                   /\ UNCHANGED conn
-  /\ UNCHANGED <<path, framing, step, await, xid, fh, failed>>
+  /\ UNCHANGED <<path, framing, wire, step, await, xid, fh, failed>>
+
+\* defect class (FullRead = FALSE): the fragment body is taken from a single Read; when only part of
+\* the fragment has arrived the record is truncated, the stream loses framing, the connection ends
+ServeRMTruncated ==
+  /\ ~FullRead /\ framing = "rm" /\ conn = "open" /\ Len(c2s) >= 2
+  /\ ReadRecord(c2s).st = "short"
+  /\ conn' = "closed"
+  /\ UNCHANGED <<path, framing, wire, c2s, s2c, step, await, xid, fh, failed>>
 
 \* one pass of handleConnectionLoop with rawConnIO: the header is decoded straight off the
 \* socket, the handler reads its arguments from the socket, the reply has no fragment header.
@@ -76,15 +100,17 @@ ServeRM ==
 ServeRaw ==
   /\ framing = "raw" /\ conn = "open" /\ c2s # <<>>
   /\ LET d == Decode(c2s) IN
-     IF d.st # "ok" THEN conn' = "closed" /\ UNCHANGED <<c2s, s2c>>
-     ELSE LET x == Dispatch(d, d.rest) IN
-          /\ s2c' = s2c \o x.reply
-          /\ c2s' = SubSeq(d.rest, x.used + 1, Len(d.rest))
-          /\ UNCHANGED conn
-  /\ UNCHANGED <<path, framing, step, await, xid, fh, failed>>
+     /\ (d.st = "short" => wire = <<>>)     \* blocks for the rest of the header; gives up only when nothing more comes
+     /\ IF d.st # "ok" THEN conn' = "closed" /\ UNCHANGED <<c2s, s2c>>
+        ELSE LET x == Dispatch(d, d.rest) IN
+             /\ s2c' = s2c \o x.reply
+             /\ c2s' = SubSeq(d.rest, x.used + 1, Len(d.rest))
+             /\ UNCHANGED conn
+  /\ UNCHANGED <<path, framing, wire, step, await, xid, fh, failed>>
 
 ServerCanAct == conn = "open" /\ c2s # <<>> /\
                 (framing = "raw" \/ (framing = "rm" /\ ReadRecord(c2s).st # "short"))
+InFlight == conn = "open" /\ wire # <<>>
 
 \* the client reads one record-marked reply
 ClientRecv ==
@@ -96,20 +122,21 @@ ClientRecv ==
              /\ fh' = IF step = 2 THEN <<r.rec[9], r.rec[10]>> ELSE fh
              /\ UNCHANGED failed
         ELSE failed' = TRUE /\ UNCHANGED <<step, await, s2c, fh>>
-  /\ UNCHANGED <<path, framing, conn, c2s, xid>>
+  /\ UNCHANGED <<path, framing, conn, wire, c2s, xid>>
 
 \* the client gives up: connection closed/reset by the server, a reply that can never become
 \* a record, or silence (the server has nothing left to do)
 ClientGiveUp ==
   /\ await /\ ~failed
   /\ ReadRecord(s2c).st # "ok"
-  /\ ~ServerCanAct
+  /\ ~ServerCanAct /\ ~InFlight
   /\ failed' = TRUE
-  /\ UNCHANGED <<path, framing, conn, c2s, s2c, step, await, xid, fh>>
+  /\ UNCHANGED <<path, framing, conn, wire, c2s, s2c, step, await, xid, fh>>
 
 Idle == (step = 4 \/ failed) /\ UNCHANGED vars
 
 Next == \/ Start \/ Connect \/ ServeRM \/ ServeRaw \/ ClientRecv \/ ClientGiveUp \/ Idle
+        \/ DeliverAll \/ \E k \in SegSizes : Deliver(k) \/ ServeRMTruncated
         \/ \E x \in Xids, a \in Auths, nf \in Frags : ClientSend(x, a, nf)
 
 Spec == Init /\ [][Next]_vars /\ WF_vars(Next)
